@@ -8,6 +8,7 @@ publishers. If the subscribers can accept data it finishes, within `work s + 1` 
 point everything it had taken from a publisher is handed over and flushed.
 -/
 import SeliumModel.Lemmas.PubSubHealthy
+import SeliumModel.Lemmas.ReqRepMore
 
 namespace Selium.Route
 open Selium.Sink
@@ -94,7 +95,32 @@ example :
 
 end Selium.Route
 
+
+/-! ## Request/reply half -/
+namespace Selium.Route
+open Selium.Sink
+
+/-- Once the channel is closed a poll of the request/reply router, from any state (idle, only one side
+    connected, a request / reply / rejection buffered, sockets still queued), finishes or is waiting for one
+    particular sink that answered Pending — within `rwork s + 1` iterations. It never goes back to waiting for
+    peers' streams. -/
+theorem c16_reqrep_closed_outcome (s : RR) (hc : s.closed = true) :
+    (rrPoll (rwork s + 1) s).1 = .done ∨ (rrPoll (rwork s + 1) s).1 = .blockedOnReplier ∨
+    (rrPoll (rwork s + 1) s).1 = .blockedOnRejected ∨ (rrPoll (rwork s + 1) s).1 = .blockedOnRequestor := by
+  rcases rrPoll_closed (rwork s + 1) s hc with h | h | h | h | h
+  · exact Or.inl h
+  · exact Or.inr (Or.inl h)
+  · exact Or.inr (Or.inr (Or.inl h))
+  · exact Or.inr (Or.inr (Or.inr h))
+  · exact absurd h (rrPoll_terminates (rwork s + 1) s (Nat.lt_succ_self _))
+
+example : (rrPoll 20 ({ closed := true, bufReq := some (.msg none 1), queue := [.client { id := 0 } [.pending]] } : RR)).1 = .done := by
+  decide +kernel
+
+end Selium.Route
+
 #print axioms Selium.Route.c16_pubsub_closed_outcome
 #print axioms Selium.Route.c16_pubsub_finishes
 #print axioms Selium.Route.c16_pubsub_finishes_flushed
 #print axioms Selium.Route.c16_pubsub_blocked_then_retry
+#print axioms Selium.Route.c16_reqrep_closed_outcome
